@@ -207,7 +207,7 @@ def r_cast(ctx):
     rid = 'R07.5'
     ctx.rule(rid, 'cast: accepted iff StructuralType::from(source) == StructuralType::from(target); emits the argument term unchanged')
     table = guards.load_table()
-    guards.compare(ctx, rid, ['<ast::Call as ast::AbstractSyntaxTree>::analyze'], table, 'Call::analyze (TypeCast guard)')
+    guards.compare(ctx, rid, ['<ast::Call as ast::AbstractSyntaxTree>::analyze'], table, 'Call::analyze (TypeCast guard)', guards.GUARD_FIELDS)
     fx = ctx.facts()
     fn = ctx.anchor(fx, '<ast::Call as ast::AbstractSyntaxTree>::analyze')
     seen = False
